@@ -42,7 +42,7 @@ OPS = [
     ("closed-flip", r"\*closed_(start|end)", lambda m: "!*closed_" + m.group(1)),
     ("any->all", r"\.any\(", ".all("), ("all->any", r"\.all\(", ".any("),
 ]
-SKIP = re.compile(r"^\s*(//|#\[|use |pub use |mod |pub mod |fn |pub fn |pub\(crate\) fn |impl|trace|println|eprintln|write!|writeln!)|value_null!|invalid_argument_type!|format!\(|err_[a-z_]+\(|static ref|Regex::new|const [A-Z_]+:|assert")
+SKIP = re.compile(r"^\s*(//|#\[|use |pub use |mod |pub mod |fn |pub fn |pub\(crate\) fn |impl|trace|println|eprintln|write!|writeln!)|value_null!|invalid_argument_type!|invalid_number_of_parameters!|with_capacity|format!\(|err_[a-z_]+\(|static ref|Regex::new|const [A-Z_]+:|assert")
 
 def props_for(path):
     m = collections.defaultdict(list)
@@ -64,7 +64,10 @@ def props_for(path):
             break
     # cheapest and most specific first
     cost = {"C05": 9, "C02": 8, "C12": 7, "C20": 6, "C18": 5, "C15": 4}
-    return sorted(ps, key=lambda x: (cost.get(x, 0), x))
+    first = sorted(ps, key=lambda x: (cost.get(x, 0), x))
+    # then every other check: a mutant can be outside the properties anchored in its file and inside another's
+    rest = sorted(["C%02d" % i for i in range(1, 21) if "C%02d" % i not in first], key=lambda x: (cost.get(x, 0), x))
+    return first + rest
 
 def plan(n, seed, frags):
     cov = collections.defaultdict(set)
